@@ -12,6 +12,10 @@ structure State where
   decls : List Decl
   tags : List (Str × Str × Str)      -- (product, tag, version): one chain file each
   dirs : List (Str × Str)            -- installation directory of (product, version) present
+  /-- products set up in the environment of the command (`SETUP_<NAME>`), from this stack: name, version -/
+  setup : List (Str × Str) := []
+  /-- `utils.isDbWritable(product.db)`: the `ups_db` of the stack can be updated by the user of the command -/
+  dbWritable : Bool := true
 deriving Repr, DecidableEq
 
 def currentTag : Str := Str.ofString "current"
@@ -26,6 +30,9 @@ inductive Err where
   | notFound       -- ProductNotFound from getProduct
   | cycle          -- RuntimeError out of uses() (topologicalSort's second exit)
   | outOfFuel      -- RecursionError
+  | tableError     -- TableFileNotFound from `product.getTable()` (declared table file missing on disk)
+  | isSetup        -- EupsException "Product ... is already setup; specify force to proceed"
+  | noPermission   -- EupsException "You do not have permission to undeclare products from ..."
 deriving Repr, DecidableEq
 
 inductive Outcome where
@@ -60,11 +67,15 @@ def collectLoop (sb : Option SetupBy) (force : Bool) (top : Str × Str) (recursi
       | .ok (sub, seen') => collectLoop sb force top recursive recur qs (acc ++ sub ++ [q]) seen'
     else collectLoop sb force top recursive recur qs (acc ++ [q]) seen
 
-/-- `deps = [[product, False, 0]]; if recursive and not seen: deps += tbl.dependencies(self)` (not recursive:
-direct dependencies only); `none` = out of fuel in an unsetup branch -/
-def directDeps (db : Db) (p : Prod) (expand : Bool) : Option (List Prod) :=
-  if expand then (depsOf db db.fuel [] p false 0 St.empty).map fun r => p :: r.1.map (·.prod)
-  else some [p]
+/-- `deps = [[product, False, 0]]; if recursive and not seen: tbl = product.getTable(); deps += tbl.dependencies(self)`
+(not recursive: direct dependencies only) -/
+def directDeps (db : Db) (p : Prod) (expand : Bool) : Except Err (List Prod) :=
+  if expand then
+    if db.tableMissing p then .error .tableError
+    else match depsOf db db.fuel [] p false 0 St.empty with
+      | none => .error .outOfFuel         -- only in an unsetup branch
+      | some r => .ok (p :: r.1.map (·.prod))
+  else .ok [p]
 
 /-- `Eups._remove`: the list `productsToRemove` (with repetitions) and the visited set.  A product's
 dependencies are collected the first time it is met with `recursive` set (so a dependency cycle ends). -/
@@ -78,8 +89,8 @@ def collect (db : Db) (sb : Option SetupBy) (force : Bool) (defaultName : Option
       | some p =>
         let expand := recursive && !seen.contains (prodkey p)
         match directDeps db p expand with
-        | none => .error .outOfFuel
-        | some deps =>
+        | .error e => .error e
+        | .ok deps =>
           collectLoop sb force top recursive
             (fun q sn => collect db sb force defaultName top f q.name q.ver (q.name != name) sn) deps []
             (if expand then prodkey p :: seen else seen)
@@ -89,11 +100,26 @@ def uniqProds (l : List Prod) : List Prod := Topo.dedup l
 
 def removed (R : List Prod) (n v : Str) : Bool := R.any fun p => p.name == n && p.ver == some v
 
-/-- the destruction loop: `undeclare` + `rmtree(product.dir)` for every collected product -/
+/-- the effect of `undeclare` + `rmtree(product.dir)` for every product of `R` -/
 def destroy (s : State) (R : List Prod) : State :=
   { decls := s.decls.filter fun d => !removed R d.name d.ver
     tags := s.tags.filter fun t => !removed R t.1 t.2.2
-    dirs := s.dirs.filter fun d => !removed R d.1 d.2 }
+    dirs := s.dirs.filter fun d => !removed R d.1 d.2
+    setup := s.setup
+    dbWritable := s.dbWritable }
+
+/-- `Eups.isSetup(product)`: the environment says this version of the product is set up from this stack -/
+def State.isSetup (s : State) (p : Prod) : Bool := s.setup.any fun x => x.1 == p.name && some x.2 == p.ver
+
+/-- the destruction loop of `Eups.remove`, product by product and in this order: `self.undeclare(...)` — which
+refuses when the database is not writable and, unless forced, when the product is set up, leaving that product and
+the remaining ones alone but the earlier ones gone — and only then `shutil.rmtree(dir)` -/
+def destroyLoop (force : Bool) : State → List Prod → Outcome × State
+  | s, [] => (.ok, s)
+  | s, p :: ps =>
+    if !s.dbWritable then (.failed .noPermission, s)
+    else if s.isSetup p && !force then (.failed .isSetup, s)
+    else destroyLoop force (destroy s [p]) ps
 
 /-- fuel for `_remove`'s own recursion: every nested call with `recursive` set opens a product not opened
 before (at most one per declaration), the others end one level down -/
@@ -107,7 +133,11 @@ def removeWith (s : State) (uses : UsesOutcome) (name ver : Str) (recursive chec
   let go (sb : Option SetupBy) : Outcome × State × List Prod :=
     match collect s.db sb force defaultName (name, ver) s.removeFuel name (some ver) recursive [] with
     | .error e => (.failed e, s, [])
-    | .ok (l, _) => (.ok, destroy s (uniqProds l), uniqProds l)
+    | .ok (l, _) =>
+      -- repaired tree (D37): no product of the removal set may be set up (unless forced) — checked before anything
+      -- is destroyed; the refusal inside the loop can then no longer fire
+      if !force && (uniqProds l).any s.isSetup then (.failed .isSetup, s, [])
+      else ((destroyLoop force s (uniqProds l)).1, (destroyLoop force s (uniqProds l)).2, uniqProds l)
   if check then
     match uses with
     | .outOfFuel => (.failed .outOfFuel, s, [])
